@@ -13,8 +13,8 @@ fh = float.fromhex
 def solver_cases(cases):
     clib = rebound.clibrebound
     clib.reb_whfast_kepler_solver.restype = None
-    sim0 = rebound.Simulation()
-    sim0.ri_whfast.timestep_warning = 1
+    sim0 = rebound.Simulation()      # timestep_warning starts at 0: the first |dt| > period call takes the warning path,
+                                     # every later call runs on the same object AFTER that path was taken
     simv = rebound.Simulation()          # two real particles + one first-order variation: var_config[0].index = 2
     simv.add(m=1.0)
     simv.add(m=1e-3, a=1.0)
@@ -67,6 +67,17 @@ def apply_history(sim, h):
         for _ in range(h.get("n", 1)):
             sim.dt = fh(h["dt"])          # IAS15 changes sim.dt
             sim.step()
+    elif op == "error_step":
+        # a step refused by reb_integrator_whfast_init (non-default kernel needs Jacobi coordinates); the same object is used on
+        sim.integrator = "whfast"
+        sim.ri_whfast.kernel = "lazy"
+        sim.ri_whfast.coordinates = "whds"
+        sim.dt = fh(h["dt"])
+        try:
+            sim.step()
+        except Exception:
+            pass
+        sim.ri_whfast.kernel = "default"
     elif op == "reset_integrator":
         sim.reset_integrator()
     elif op == "synchronize":
@@ -174,9 +185,31 @@ def sync_cases(cases):
     return out
 
 
+def edge_cases(cases):
+    """degenerate simulations (N = 0, 1; dt = 0, subnormal, non-finite; zero masses; coincident bodies): n steps, then the
+    state.  One case per process (a crash must not take other cases with it)."""
+    out = []
+    for c in cases:
+        try:
+            sim = rebound.Simulation()
+            for p in c["parts"]:
+                sim.add(**{k: fh(v) for k, v in p.items()})
+            configure(sim, c["integrator"], c)
+            sim.dt = fh(c["dt"])
+            for _ in range(c.get("n", 1)):
+                sim.step()
+            sim.synchronize()
+            ps = sim.particles
+            res = {"state": [[getattr(ps[i], n).hex() for n in C6] for i in range(sim.N)], "t": sim.t.hex()}
+        except Exception as e:
+            res = {"error": repr(e)[:300]}
+        out.append(res)
+    return out
+
+
 def main():
     job = json.load(sys.stdin)
-    res = {"solver": solver_cases, "sim": sim_cases, "sync": sync_cases}[job["mode"]](job["cases"])
+    res = {"solver": solver_cases, "sim": sim_cases, "sync": sync_cases, "edge": edge_cases}[job["mode"]](job["cases"])
     json.dump(res, sys.stdout)
 
 
